@@ -64,6 +64,16 @@ def run(ctx):
     g = minimiser.GENS["kmers"]
     p = minimiser.GENS["plain"]
     rule_nt4_table(ctx, "C18.K", g["table"])
+    # agreement is quantified over ALL byte strings (incl. 0x00-0x03): the byte tables of the iterators must be identical
+    tabs = {path: (ctx.prog.consts.get(path) or {}).get("bytes") for path in
+            (g["table"], p["table"], "kmer::kmer::SEQ_NT4_TABLE")}
+    ref = tabs[p["table"]]
+    for path, t in tabs.items():
+        diff = [b for b in range(256) if t is None or ref is None or t[b] != ref[b]]
+        ctx.check("C18.T", "%s:same_table" % path, t is not None and not diff,
+                  "byte table identical to the plain minimiser iterator's (256 entries)",
+                  "byte table `%s` differs from `%s` at bytes %s: the iterators classify the same input differently"
+                  % (path, p["table"], diff[:8]), (ctx.prog.consts.get(path) or {}).get("sp"))
     fnew = ctx.need("C18.K", g["new"])
     fv = ctx.need("C18.K", g["next"])
     if fnew is not None:
@@ -105,8 +115,8 @@ def run(ctx):
     only_p = spn - sk
     detail = ""
     if only_k or only_p:
-        a = sorted(only_k)[0] if only_k else None
-        b = sorted(only_p)[0] if only_p else None
+        a = sorted(only_k, key=repr)[0] if only_k else None
+        b = sorted(only_p, key=repr)[0] if only_p else None
         detail = ("%d path(s) of the k-mer-reporting machine have no counterpart and %d of the plain machine have none. "
                   % (len(only_k), len(only_p)))
         detail += diff_hint(a, b, only_k, only_p)
